@@ -50,6 +50,7 @@ func init() {
 			ruleUnchangedShortcut(c, "C04.UNCHANGED", []string{"fkIndex", "fkConstraint"})
 			ruleNoRemoveAfterAdd(c, "C04.PHASES", []string{"fkIndex"})
 			ruleFkDelete(c, "C04.DELETE")
+			ruleRawIdFilter(c, "C04.RAWID")
 		},
 		Controls: []controlExpect{{"C04.INJECT", "zzControlBad_C04_INJECT", true}},
 	})
@@ -69,6 +70,27 @@ func init() {
 			ruleLinkCleanup(c, "C05.CLEANUP")
 			ruleCleanupPlacement(c, "C05.CLEANUP")
 			ruleKeyPresence(c, "C05.PRESENCE")
+			ruleDeleteOrch(c, "C05.ORCH")
+			// a failure of either side must reach the caller (a swallowed remote error leaves a one-sided link)
+			var linkFns []*ssa.Function
+			for _, fn := range c.prodFuncs("boltz") {
+				root := fn
+				for root.Parent() != nil {
+					root = root.Parent()
+				}
+				if root.Signature.Recv() == nil {
+					continue
+				}
+				if nm := namedOf(root.Signature.Recv().Type()); nm != nil {
+					switch nm.Obj().Name() {
+					case "linkCollectionImpl", "rcLinkCollectionImpl", "LinkedSetSymbol", "RefCountedLinkedSetSymbol":
+						linkFns = append(linkFns, fn)
+					}
+				}
+			}
+			ruleSwallow(c, "C05.ERR", linkFns)
+			c.Floor("C05.ERR", 10)
+			ruleRemoteWrites(c, "C05.REMOTEWRITE")
 			ruleNoMutateWhileIterating(c, "C05.ITERATE", c.prodFuncs("boltz"))
 			ruleHolder(c, "C05.HOLDER", c.prodFuncs("boltz"), map[string]bool{
 				"(*boltz.TypedBucket).SetLinkCount": true, "(*boltz.TypedBucket).IncrementLinkCount": true, "(*boltz.TypedBucket).DecrementLinkCount": true,
@@ -1069,14 +1091,18 @@ func ruleFkDelete(c *Ctx, rule string) {
 	}
 	c.Check(okNone, rule, FnName(fc)+": CascadeNone restricts", p.Pos(fc.Pos()), "with referrers present and cascade none, a reference-exists error is recorded (first referrer as found by the filter, no skipping)", "CascadeNone does not refuse the delete of a referenced entity for every referrer (the referrer cursor is moved before the test, or no error is recorded)")
 	// cascade delete loop: DeleteById inside a loop driven by the live cursor's IsValid, re-seek after delete
-	var del ssa.CallInstruction
+	var dels []ssa.CallInstruction
 	for _, call := range callsIn(fc) {
 		if invokeNamed(call, "DeleteById") {
-			del = call
+			dels = append(dels, call)
 		}
 	}
-	okLoop, why := del != nil, "no DeleteById of the referrers"
-	if okLoop {
+	okLoop, why := len(dels) > 0, "no DeleteById of the referrers"
+	// every loop that deletes referrers must satisfy the shape (a second, "optimised" cascade path included)
+	for _, del := range dels {
+		if !okLoop {
+			break
+		}
 		l := innermostLoop(loops, del.Block())
 		if l == nil {
 			okLoop, why = false, "referrers are not deleted in a loop"
@@ -1724,4 +1750,61 @@ func ruleKeyPresence(c *Ctx, rule string) {
 // pathPassesStore: block b lies at or after st within the same loop body (st's block dominates b).
 func pathPassesStore(b *ssa.BasicBlock, st *ssa.Store) bool {
 	return st.Block().Dominates(b)
+}
+
+// ruleRawIdFilter: the filter "<symbol> = <id>" that the cascade/restrict constraints build for the
+// id being deleted compares with exactly that id: the string constant holds the parameter unchanged
+// (an id is data, not a quoted literal: nothing may strip quotes or resolve escapes in it).
+func ruleRawIdFilter(c *Ctx, rule string) {
+	p := c.P
+	fn := p.SSAFunc(p.Func("ast", "NewSymbolEqualsStringQuery"))
+	name := FnName(fn)
+	c.Analysed(name)
+	valFld := p.Field("ast", "StringConstNode", "value")
+	n, ok := 0, true
+	why := ""
+	var valueParam *ssa.Parameter
+	for _, prm := range fn.Params {
+		if b, isB := prm.Type().Underlying().(*types.Basic); isB && b.Kind() == types.String && prm.Name() != "symbol" {
+			valueParam = prm
+		}
+	}
+	for _, b := range fn.Blocks {
+		for _, in := range b.Instrs {
+			st, isSt := in.(*ssa.Store)
+			if !isSt {
+				continue
+			}
+			if f, _ := fieldOfAddr(st.Addr); !sameVar(f, valFld) {
+				continue
+			}
+			n++
+			if valueParam == nil || st.Val != ssa.Value(valueParam) {
+				ok = false
+				why = "the constant's value at " + p.Pos(st.Pos()) + " is not the id parameter itself (" + describeValue(st.Val) + "): ids containing quotes or backslashes would select the referrers of a different id"
+			}
+		}
+	}
+	if n == 0 {
+		ok, why = false, "no string constant holding the id is built"
+	}
+	c.Check(ok, rule, name, p.Pos(fn.Pos()), "the comparison constant is the id parameter, unchanged", why)
+}
+
+// ruleRemoteWrites: the remote-side operations of the reference-counted links really write: every
+// successful return of setLinkCount / incrementLinkCount has passed the bucket write, except where
+// the count is zero / the entity bucket is missing (reported as an error by C05.MISSING).
+func ruleRemoteWrites(c *Ctx, rule string) {
+	p := c.P
+	for _, w := range []struct{ m, prim string }{{"setLinkCount", "SetLinkCount"}, {"incrementLinkCount", "IncrementLinkCount"}} {
+		fn := p.SSAFunc(p.Method("boltz", "RefCountedLinkedSetSymbol", w.m))
+		name := FnName(fn)
+		c.Analysed(name)
+		fi := factsOf(fn)
+		prim := tbMethod(c, w.prim)
+		isWrite := func(in ssa.Instruction) bool { return isCallTo(in, prim) }
+		ok := noPathAvoidingSuccess(fn, fi, isWrite, nil)
+		c.Check(ok, rule, name, p.Pos(fn.Pos()), "every successful return has written the count on this (remote) side through TypedBucket."+w.prim, "a successful return is reachable without writing the count on this side (for instance when the link bucket does not exist yet): the two sides of the link then disagree")
+	}
+	c.Floor(rule, 2)
 }
